@@ -9,6 +9,7 @@ import (
 	"encoding/json"
 	"fmt"
 	"os"
+	"runtime"
 )
 
 type vfDraw struct {
@@ -127,3 +128,8 @@ var vfHarnesses = map[string]func(){}
 // vfMapOrder: under the engine, selects the order in which maps are ranged over (0 insertion, 1
 // reverse insertion); natively Go's own unspecified order applies.
 func vfMapOrder(k int) {}
+
+// vfYield is an explicit scheduling point of the engine's goroutine model; natively it yields the
+// processor. vfPreemptions sets the engine's context bound (preemptive switches per path).
+func vfYield()            { runtime.Gosched() }
+func vfPreemptions(n int) {}
